@@ -91,6 +91,14 @@ func (p *Prog) errLeaves(v ssa.Value, pred, succ *ssa.BasicBlock, depth int, see
 	nonNil := func(l Lit) bool { x, isNil, ok := nilTest(l); return ok && !isNil && (x == v || sameErrVar(x, v)) }
 	isNilQ := func(l Lit) bool { x, isNil, ok := nilTest(l); return ok && isNil && (x == v || sameErrVar(x, v)) }
 	if c, ok := v.(*ssa.Const); ok && c.Value == nil {
+		// an explicit nil reached only after the RPC's own error tested nil is the success answer
+		rpcNil := func(l Lit) bool {
+			x, isNil, ok := nilTest(l)
+			return ok && isNil && rpcErrAll(x, 0)
+		}
+		if holds(rpcNil) {
+			return []errLeaf{{"rpc-ok", ""}}
+		}
 		// nil assigned inside the retry loop is a fabricated success, not the initial value
 		if pred != nil && innermostLoop(naturalLoops(pred.Parent()), pred) != nil {
 			return []errLeaf{{"unknown", "error reset to nil inside the retry loop at " + p.ipos(pred.Instrs[len(pred.Instrs)-1])}}
@@ -153,6 +161,26 @@ func proxyErrRule(p *Prog, r *Report, rule string) {
 			continue
 		}
 		n := 0
+		totalOK := 0
+		for _, b := range fn.Blocks {
+			if ret, ok := b.Instrs[len(b.Instrs)-1].(*ssa.Return); ok && !(b.Index != 0 && len(b.Preds) == 0) {
+				v := ret.Results[0]
+				var ls []errLeaf
+				if ph, isPhi := v.(*ssa.Phi); isPhi {
+					seen := map[ssa.Value]bool{v: true}
+					for i, e := range ph.Edges {
+						ls = append(ls, p.errLeaves(e, ph.Block().Preds[i], ph.Block(), 0, seen)...)
+					}
+				} else if len(b.Preds) == 1 {
+					ls = p.errLeaves(v, b.Preds[0], b, 0, map[ssa.Value]bool{})
+				}
+				for _, l := range ls {
+					if l.kind == "rpc-ok" {
+						totalOK++
+					}
+				}
+			}
+		}
 		for _, b := range fn.Blocks {
 			ret, ok := b.Instrs[len(b.Instrs)-1].(*ssa.Return)
 			if !ok || (b.Index != 0 && len(b.Preds) == 0) {
@@ -168,6 +196,14 @@ func proxyErrRule(p *Prog, r *Report, rule string) {
 				}
 			} else if len(b.Preds) == 1 {
 				leaves = p.errLeaves(v, b.Preds[0], b, 0, map[ssa.Value]bool{})
+				// a literal `return nil` is a success answer: legitimate only after the RPC's own error tested nil
+				if c, isC := v.(*ssa.Const); isC && c.Value == nil {
+					for i := range leaves {
+						if leaves[i].kind == "initial-nil" {
+							leaves[i] = errLeaf{"unknown", "nil returned explicitly without the RPC's own error having been tested nil"}
+						}
+					}
+				}
 			} else {
 				leaves = []errLeaf{{"unknown", "unsupported return shape"}}
 			}
@@ -184,7 +220,7 @@ func proxyErrRule(p *Prog, r *Report, rule string) {
 					nInit++
 				}
 			}
-			if nOK == 0 && bad == "" {
+			if nOK == 0 && totalOK == 0 && bad == "" {
 				bad = "no path returns success after an RPC error test"
 			}
 			r.Check(bad == "", rule, w[1]+".call:nil-only-after-rpc-success", p.ipos(ret), fnName(fn), fmt.Sprintf("%d leaves: nil only where the RPC's error was tested nil (or zero attempts, excluded by retries>=1)", len(leaves)),
